@@ -930,7 +930,13 @@ def oracle(case, rng=None):
 def cosmo_case(rng, nprng, nmax):
     t = rng.choice(["IFUKinCov", "IFUKinCov", "DdtGaussKin"])
     c = gen_case(rng, nprng, t, min(nmax, 4))
-    c["ctor"]["sigma_sys_error_include"] = True
+    # the lens includes the sampled systematic error, declines it, or does not say (documented default: False) — when
+    # the systematic is sampled for the population, the fully normalised density is used for the lens in every case
+    inc = rng.choice(["include", "include", "decline", "omitted"])
+    if inc == "omitted":
+        c["ctor"].pop("sigma_sys_error_include", None)
+    else:
+        c["ctor"]["sigma_sys_error_include"] = inc == "include"
     c["ctor"]["z_lens"] = rng.uniform(0.2, 0.8)
     c["ctor"]["z_source"] = c["ctor"]["z_lens"] + rng.uniform(0.5, 1.5)
     return {"lens": c, "sys": rng.random() < 0.7, "flag": rng.random() < 0.5,
